@@ -52,24 +52,26 @@ Proof.
 Qed.
 
 (* the regenerated MemoryStore is the dictionary specification, step for step *)
-Theorem gen_mem_step_is_spec : forall s o,
-  gen_mem_step (blobs s, paths s) o = ((blobs (fst (spec_step s o)), paths (fst (spec_step s o))), snd (spec_step s o)).
+Theorem gen_mem_step_is_spec : forall s o, gen_mem_step s o = spec_step s o.
 Proof.
-  intros [b ps] o. destruct o as [k|k|k v|ps0|l]; cbn [blobs paths gen_mem_step spec_step fst snd].
-  - unfold gen_mem_has_blob, dict_has, is_some. cbn [blobs]. reflexivity.
-  - unfold gen_mem_fetch_blob, dict_get_blob, spec_fetch. cbn [blobs]. reflexivity.
+  intros [b ps] o. destruct o as [k|k|k v|ps0|l]; cbn [gen_mem_step spec_step].
+  - unfold gen_mem_has_blob, dict_has, is_some. cbn [blobs paths]. reflexivity.
+  - unfold gen_mem_fetch_blob, dict_get_blob, spec_fetch. cbn [blobs paths]. reflexivity.
   - reflexivity.
   - reflexivity.
-  - unfold gen_mem_fetch_paths. rewrite (fetch_paths_eq b ps l []) by (intros q k H; discriminate H).
+  - unfold gen_mem_fetch_paths. cbv zeta. cbn [blobs paths].
+    rewrite (fetch_paths_eq b ps l []) by (intros q k H; discriminate H).
     unfold od_of_pairs, dpath, key in *.
     match goal with |- context [Nat.eqb ?X 0] => destruct (Nat.eqb X 0) end; reflexivity.
 Qed.
 
-(* hence every operation sequence on the regenerated MemoryStore answers as the dictionary does *)
-Theorem gen_mem_run_is_spec : forall ops s,
-  run_ops gen_mem_step (blobs s, paths s) ops = run_ops spec_step s ops.
+Lemma run_ops_ext : forall (S : Type) (f g : S -> sop -> S * sout), (forall s o, f s o = g s o) ->
+  forall ops s, run_ops f s ops = run_ops g s ops.
 Proof.
-  induction ops as [|o r IH]; intro s; cbn [run_ops]; [reflexivity|].
-  rewrite gen_mem_step_is_spec. destruct (spec_step s o) as [s' out] eqn:E. cbn [fst snd].
-  f_equal. apply IH.
+  intros S f g H. induction ops as [|o r IH]; intro s; cbn [run_ops]; [reflexivity|].
+  rewrite H. destruct (g s o) as [s' out]. f_equal. apply IH.
 Qed.
+
+(* hence every operation sequence on the regenerated MemoryStore answers as the dictionary does *)
+Theorem gen_mem_run_is_spec : forall ops s, run_ops gen_mem_step s ops = run_ops spec_step s ops.
+Proof. intros ops s. apply run_ops_ext. exact gen_mem_step_is_spec. Qed.
